@@ -7,13 +7,69 @@ package plugin
 
 import (
 	"errors"
+	"math"
 	"net/netip"
 	"testing"
 	"time"
 
+	"github.com/jsimonetti/rtnetlink"
 	"github.com/mdlayher/corerad/internal/system"
 	"github.com/mdlayher/ndp"
+	"github.com/mdlayher/netlink"
+	"golang.org/x/sys/unix"
 )
+
+// vfViaRtnl turns a listing into synthetic rtnetlink address messages and lets the real
+// addresser decode them (second route of the wildcard checks).
+func vfViaRtnl(list []any) func() ([]system.IP, error) {
+	var msgs []rtnetlink.Message
+	for _, x := range list {
+		m := x.(map[string]any)
+		a := netip.MustParseAddr(vfStr(m, "addr", ""))
+		if a.Is4() {
+			continue // the kernel filters the dump to AF_INET6
+		}
+		var f uint32
+		if vfBool(m, "dep", false) {
+			f |= unix.IFA_F_DEPRECATED
+		}
+		if vfBool(m, "mt", false) {
+			f |= unix.IFA_F_MANAGETEMPADDR
+		}
+		if vfBool(m, "sp", false) {
+			f |= unix.IFA_F_STABLE_PRIVACY
+		}
+		if vfBool(m, "tmp", false) {
+			f |= unix.IFA_F_TEMPORARY
+		}
+		if vfBool(m, "tent", false) {
+			f |= unix.IFA_F_TENTATIVE
+		}
+		valid := uint32(3600)
+		if vfBool(m, "forever", false) {
+			valid = math.MaxUint32
+		}
+		msgs = append(msgs, &rtnetlink.AddressMessage{Family: unix.AF_INET6, PrefixLength: uint8(vfInt(m, "bits", 64)), Index: 7,
+			Attributes: &rtnetlink.AddressAttributes{Address: a.AsSlice(), Flags: f, CacheInfo: rtnetlink.CacheInfo{Valid: valid}}})
+	}
+	ad := system.VFNewAddresser(func(rtnetlink.Message, uint16, netlink.HeaderFlags) ([]rtnetlink.Message, error) { return msgs, nil })
+	return func() ([]system.IP, error) { return ad.AddressesByIndex(7) }
+}
+
+func vfRoutesViaRtnl(list []any) func() ([]system.Route, error) {
+	var msgs []rtnetlink.Message
+	for _, x := range list {
+		m := x.(map[string]any)
+		p := netip.MustParsePrefix(vfStr(m, "pfx", ""))
+		if p.Addr().Is4() {
+			continue
+		}
+		msgs = append(msgs, &rtnetlink.RouteMessage{Family: unix.AF_INET6, DstLength: uint8(p.Bits()),
+			Attributes: rtnetlink.RouteAttributes{Dst: p.Addr().AsSlice(), OutIface: 1}})
+	}
+	ad := system.VFNewAddresser(func(rtnetlink.Message, uint16, netlink.HeaderFlags) ([]rtnetlink.Message, error) { return msgs, nil })
+	return func() ([]system.Route, error) { return system.VFRoutesByIndex(ad, 1) }
+}
 
 func vfGroups(a netip.Addr) []any {
 	if a.Is4() {
@@ -95,6 +151,9 @@ func vfC13(in map[string]any) map[string]any {
 		}
 		return append([]system.IP(nil), ips...), nil
 	}
+	if vfStr(in, "via", "") == "rtnl" && !fail {
+		p.Addrs = vfViaRtnl(vfList(in, "addrs"))
+	}
 	ra := &ndp.RouterAdvertisement{}
 	if err := p.Apply(ra); err != nil {
 		return map[string]any{"err": true, "nets": []any{}, "uniform": true}
@@ -133,6 +192,9 @@ func vfC14(in map[string]any) map[string]any {
 		}
 		return append([]system.IP(nil), ips...), nil
 	}
+	if vfStr(in, "via", "") == "rtnl" && !fail {
+		r.Addrs = vfViaRtnl(vfList(in, "addrs"))
+	}
 	ra := &ndp.RouterAdvertisement{}
 	if err := r.Apply(ra); err != nil {
 		return map[string]any{"err": true, "servers": []any{}}
@@ -161,6 +223,9 @@ func vfC15(in map[string]any) map[string]any {
 			return nil, errors.New("vf: dump failed")
 		}
 		return append([]system.Route(nil), routes...), nil
+	}
+	if vfStr(in, "via", "") == "rtnl" && !fail {
+		r.Routes = vfRoutesViaRtnl(vfList(in, "routes"))
 	}
 	ra := &ndp.RouterAdvertisement{}
 	if err := r.Apply(ra); err != nil {
